@@ -4,7 +4,16 @@ import json, os, sys
 sys.path.insert(0, os.path.dirname(os.path.abspath(__file__)))
 from props import PROPS, TEXTS
 NOT_APPLICABLE = {}
-HOOK_COMMITS = ['82e2f34 verif hooks: decoder/verif_export.go, encoder/verif_export.go (added files, //go:build verif)']
+import subprocess
+def _hook_commits():
+    """every commit of /repo whose subject starts with 'verif hooks:' (added files guarded by //go:build verif)"""
+    try:
+        out = subprocess.run(['git', '-C', '/repo', 'log', '--reverse', '--format=%h %s', '--grep=^verif hooks:'],
+                             stdout=subprocess.PIPE, text=True).stdout.strip().split('\n')
+        return [l for l in out if l.strip()]
+    except Exception:
+        return []
+HOOK_COMMITS = _hook_commits()
 ROOT = os.path.dirname(os.path.dirname(os.path.abspath(__file__)))
 all_ids = [json.loads(l)['id'] for l in open(os.path.join(ROOT, 'properties.jsonl'))]
 checks = []
